@@ -330,6 +330,30 @@ fn handle(req: &Value) -> Value {
             let b = stressed.get("value").cloned().unwrap_or(json!(stressed.get("error").cloned()));
             json!({"normal": a, "stressed": b, "differ": a != b})
         }
+        "api_key" => {
+            // host API and script must see each other's properties under the same key text
+            use tsrun::api;
+            let k = req["s"].as_str().unwrap_or("");
+            let mut interp = Interpreter::new();
+            let mut obj = None;
+            if interp.prepare("globalThis.hostObj = {}; globalThis.hostObj", None).is_ok() {
+                loop {
+                    match interp.step() {
+                        Ok(StepResult::Continue) => continue,
+                        Ok(StepResult::Complete(v)) => { obj = Some(v); break; }
+                        _ => break,
+                    }
+                }
+            }
+            let obj = match obj { Some(o) => o, None => return json!({"error": "setup failed"}) };
+            let _ = api::set_property(obj.value(), k, JsValue::Number(5.0));
+            let kq = serde_json::to_string(k).unwrap_or_default();
+            let seen = run_on(&mut interp, &format!("hostObj[{}]", kq), None, 100000);
+            let script_sees = seen["value"]["repr"].as_str() == Some("5.0");
+            let _ = run_on(&mut interp, &format!("hostObj[{}] = 9; 0", kq), None, 100000);
+            let back = api::get_property(obj.value(), k).map(|v| v.as_number()).unwrap_or(None);
+            json!({"script_sees_host_write": script_sees, "host_sees_script_write": back == Some(9.0)})
+        }
         "number_to_string" => {
             let bits = u64::from_str_radix(req["bits"].as_str().unwrap_or("0"), 16).unwrap_or(0);
             json!({"out": tsrun::value::number_to_string(f64::from_bits(bits)).to_string()})
